@@ -353,7 +353,12 @@ func checkC06(c *Ctx, r *Report) {
 				}
 				sort.Strings(cls)
 				gs := append(append([]Guard{}, leaf.Gs...), guardsOf(s.Call.Block())...)
-				key := fmt.Sprintf("%s:Store[%s][key<-%s]", rel, strings.Join(c.concreteTypesOf(s.Call.Common().Args[2]), "|"), strings.Join(cls, "|"))
+				var stored []string
+				for _, t := range c.concreteTypesOf(s.Call.Common().Args[2]) {
+					stored = append(stored, c.txRoleOf(t))
+				}
+				sort.Strings(stored)
+				key := fmt.Sprintf("%s:Store[%s][key<-%s]", rel, strings.Join(stored, "|"), strings.Join(cls, "|"))
 				if occupancyChecked(gs, leaf.V) {
 					r.ok("R4", key, c.instrPos(s.Call), "stored only after a failed Get of the same key")
 				} else {
@@ -382,7 +387,7 @@ func checkC06(c *Ctx, r *Report) {
 					ctor = ctor.Parent()
 				}
 				r.fn(ctor)
-				key := rel + ":completion-callback-of(" + typeStr(ctor.Signature.Results().At(0).Type()) + "):unconditional-delete"
+				key := rel + ":completion-callback-of(" + c.txRoleOf(typeStr(ctor.Signature.Results().At(0).Type())) + "):unconditional-delete"
 				if ctor.Signature.Results().Len() != 1 {
 					key = fnKey(ctor) + ":unconditional-delete"
 				}
